@@ -34,6 +34,7 @@ type vfPipe struct {
 	writes     int   // Write calls so far
 	wrFaultAt  int   // ordinal (0-based) of the Write that fails; -1 none
 	wrShort    int   // bytes accepted by the failing write
+	softClose  bool  // after Close the writer goes on accepting (and discarding) bytes: Close ends the stream for the peer, but says nothing to later writers
 	wrPartial  bool  // the failing write never accepts its whole buffer (so the peer never sees that packet complete)
 	wrErr      error // what the failing write (and every later one) returns; nil: vfErrWriteFault
 	wrDead     error // sticky write error afterwards
@@ -246,6 +247,10 @@ func (p *vfPipe) Write(b []byte) (int, error) {
 	}
 	if p.wclosed {
 		s.mu.Unlock()
+		if p.softClose {
+			s.count("fault." + p.name + ".write-after-close-accepted")
+			return len(b), nil
+		}
 		return 0, io.ErrClosedPipe
 	}
 	if ord == p.wrFaultAt {
